@@ -11,9 +11,11 @@
      if newNodes == 0 { return nil, nil }
      for node in fsChain { if len(result) == ln {break}; if !hmap[node] { result = append(result, node) } }
      sort result
-   updateInnerRing(innerRing, before, after):
+   updateInnerRing(innerRing, before, after)   (after the repair `fix: innerring/governance: do not list ... twice`):
      len(before) != len(after) -> errNotEqualLen
-     for x in innerRing: first j with x == before[j] -> after[j], else x *)
+     for x in innerRing: first j with x == before[j] -> append after[j];
+                         else append x unless after contains x
+   (the code before the repair appended x unconditionally: update_inner_ring_old) *)
 From Coq Require Import List Arith Bool Sorting.Mergesort.
 Import ListNotations.
 
@@ -67,13 +69,27 @@ Definition replace_key (before after : list nat) (x : nat) : nat :=
   | None => x
   end.
 
+(* one step of the loop: the keys appended for inner-ring key x *)
+Definition step_key (before after : list nat) (x : nat) : list nat :=
+  match index_of x before with
+  | Some j => [nth j after x]
+  | None => if mem x after then [] else [x]
+  end.
+
 Definition update_inner_ring (ir before after : list nat) : option (list nat) :=
+  if Nat.eqb (length before) (length after) then Some (flat_map (step_key before after) ir) else None.
+
+(* updateInnerRing before the repair: every key outside `before` is copied *)
+Definition update_inner_ring_old (ir before after : list nat) : option (list nat) :=
   if Nat.eqb (length before) (length after) then Some (map (replace_key before after) ir) else None.
 
 (* processAlphabetSync: newAlphabetList sorts fsChain in place, so `before` is the sorted current alphabet *)
-Definition pipeline (fs mn ir : list nat) : alpha_res * option (list nat) :=
+Definition pipeline_with (uir : list nat -> list nat -> list nat -> option (list nat))
+           (fs mn ir : list nat) : alpha_res * option (list nat) :=
   match new_alphabet_list fs mn with
   | Proposed a =>
-      (Proposed a, match update_inner_ring ir (sort fs) a with Some l => Some (sort l) | None => None end)
+      (Proposed a, match uir ir (sort fs) a with Some l => Some (sort l) | None => None end)
   | r => (r, None)
   end.
+Definition pipeline := pipeline_with update_inner_ring.
+Definition pipeline_old := pipeline_with update_inner_ring_old.
